@@ -40,6 +40,7 @@ def ofPath : Path → Json
   | .finalLin s => Json.arr #[ofStr "finalLin", ofStr (streamName s)]
   | .tpm s => Json.arr #[ofStr "tpm", ofStr (streamName s)]
   | .finalGz s => Json.arr #[ofStr "finalGz", ofStr (streamName s)]
+  | .refFa => Json.arr #[ofStr "refFa"]
 
 def jPath (j : Json) : Except String Path := do
   let a ← j.getArr?
@@ -55,6 +56,7 @@ def jPath (j : Json) : Except String Path := do
   | "rgLock" => pure .rgLock
   | "info" => pure .info
   | "lock" => pure .lock
+  | "refFa" => pure .refFa
   | "rgSplit" => return .rgSplit (← chr)
   | "save" => return .save (← chr)
   | "groups" => return .groups (← chr)
@@ -100,7 +102,7 @@ def jBoolD (j : Json) (k : String) (d : Bool) : Except String Bool :=
 def jVariant (j : Json) : Except String Variant := do
   pure ⟨← jBool (← arg j "flushBeforeLock"), ← jBool (← arg j "dropProcessed"), ← jBool (← arg j "locksFirst"),
         ← jBool (← arg j "countUnaligned"), ← jBoolD j "cleanBeforeParams" true, ← jBoolD j "dropAtDumpPrefix" true,
-        ← jBoolD j "flushSqanti" true, ← jBoolD j "resetCounter" true⟩
+        ← jBoolD j "flushSqanti" true, ← jBoolD j "resetCounter" true, ← jBoolD j "refRewrite" true⟩
 
 def jRG (j : Json) : Except String RG := do
   match (← jStr j) with
@@ -116,12 +118,16 @@ def jCfg (j : Json) : Except String Cfg := do
          fromSaves := ← jBoolD j "fromSaves" false, sqanti := ← jBoolD j "sqanti" false,
          carried := ← jBoolD j "carried" false, countExons := ← jBoolD j "countExons" false,
          noModel := ← jBoolD j "noModel" false, gzip := ← jBoolD j "gzip" false,
-         highMemory := ← jBoolD j "highMemory" false }
+         highMemory := ← jBoolD j "highMemory" false, gzRef := ← jBoolD j "gzRef" false }
 
-/-- the configuration of the resumed run: optional fields `resumeHM` (`--resume --high_memory`; default: the killed run's
-    value, i.e. the same options) and `resumeKT` (`--resume --keep_tmp`) -/
+/-- the configuration of the resumed run: optional fields `resumeHM` (`--resume --high_memory`) and `resumeKT`
+    (`--resume --keep_tmp`), default: `--resume` alone = the options of the killed run; `resumeOrig` (development aid:
+    the resume parser before the repair, `--high_memory` not restored from `.params`) -/
 def jResumeCfg (j : Json) (cfg : Cfg) : Except String Cfg := do
-  pure (resumeCfg cfg (← jBoolD j "resumeHM" cfg.highMemory) (← jBoolD j "resumeKT" false))
+  if ← jBoolD j "resumeOrig" false then
+    pure (resumeCfgOrig cfg (← jBoolD j "resumeHM" false) (← jBoolD j "resumeKT" false))
+  else
+    pure (resumeCfg cfg (← jBoolD j "resumeHM" false) (← jBoolD j "resumeKT" false))
 
 /-- a file system given as a list of [path, token] -/
 def jFS (j : Json) : Except String FS := do
@@ -144,6 +150,33 @@ def ofVerdict : Verdict → Json
 
 def ofRes (cfg : Cfg) (r : Res) : Json :=
   Json.mkObj [("evs", ofList ofEv r.evs), ("ok", ofBool r.ok), ("fs", ofFS cfg r.fs)]
+
+/-- the files a list of actions opens for reading (`exist` / `load`), up to the point where it raises (as `runActs`) -/
+def readsOfActs : List Act → FS → List Path × FS × Bool
+  | [], fs => ([], fs, true)
+  | .ev e :: as, fs => readsOfActs as (apply fs e)
+  | .exist p :: as, fs =>
+      if fs.has p then let r := readsOfActs as fs; (p :: r.1, r.2) else ([p], fs, false)
+  | .load p :: as, fs =>
+      if fs.loadable p then let r := readsOfActs as fs; (p :: r.1, r.2) else ([p], fs, false)
+  | .rm p :: as, fs =>
+      if fs.has p then readsOfActs as (apply fs (.remove p)) else ([], fs, false)
+
+def readsOfStages : List Stage → FS → List Path
+  | [], _ => []
+  | s :: ss, fs =>
+      let r := readsOfActs (s fs) fs
+      if r.2.2 then r.1 ++ readsOfStages ss r.2.1 else r.1
+
+/-- the read accesses of one `--threads 1` run (same stage list as `run`) -/
+def readsOfRun (v : Variant) (cfg : Cfg) (ord : List Path) (resume : Bool) (fs : FS) : List Path :=
+  readsOfStages (forceClean v cfg resume :: stages v cfg ord resume (resume && fs.has .lock)) fs
+
+/-- a run with the files it reads (`reads`: existence checks and loads in the order of the model's actions) -/
+def ofResReads (v : Variant) (cfg : Cfg) (ord : List Path) (resume : Bool) (fs : FS) : Json :=
+  let r := run v cfg ord resume fs
+  Json.mkObj [("evs", ofList ofEv r.evs), ("ok", ofBool r.ok), ("fs", ofFS cfg r.fs),
+              ("reads", ofList ofPath (readsOfRun v cfg ord resume fs))]
 
 /-! ### process pool (Model/ResumePool.lean) -/
 
@@ -245,7 +278,7 @@ def ops : List (String × Handler) := [
       let ord ← jList jPath (← arg j "ord")
       let resume ← jBool (← arg j "resume")
       let fs ← jFS (← arg j "fs")
-      pure (ofRes cfg (run v cfg ord resume fs))),
+      pure (ofResReads v cfg ord resume fs)),
   -- file system after the first k events of the uninterrupted run started on fs0
   ("crash", fun j => do
       let v ← jVariant (← arg j "variant")
@@ -263,9 +296,8 @@ def ops : List (String × Handler) := [
       let k ← jNat (← arg j "k")
       let fs0 ← jFS0 j
       let cfg2 ← jResumeCfg j cfg
-      let r := run v cfg2 ord2 true (crashFSFrom v cfg ord fs0 k)
       pure (Json.mkObj [("verdict", ofVerdict (verdictFromOpts v cfg ord ord2 cfg2.highMemory cfg2.keepTmp fs0 k)),
-                        ("resumed", ofRes cfg r)])),
+                        ("resumed", ofResReads v cfg2 ord2 true (crashFSFrom v cfg ord fs0 k))])),
   -- verdicts for every crash index 0..len
   ("verdicts", fun j => do
       let v ← jVariant (← arg j "variant")
